@@ -23,7 +23,8 @@ PATCH=$D/patch.diff
 git apply $PATCH || { echo "PATCH DOES NOT APPLY"; rm -rf $S; exit 3; }
 VERIF_REPO=$S /verif/tools/baseline.sh | tail -2
 gcc -w -DHAVE_CONFIG_H -I$S -I$S/include -I$S/include/libast $D/demo.c $S/src/.libs/libast.a -lpcre -lX11 -lm -ldl $WRAP -o $S/demo1 2>/dev/null && (cd $S; timeout 120 $S/demo1 >/dev/null 2>&1; echo "demo exit (patched) = $?")
-cd /verif && VERIF_REPO=$S VERIF_JOBS=4 ./vcheck $PROP $TIER > $S.out 2>/dev/null; rc=$?
+cd /verif && VERIF_REPO=$S VERIF_JOBS=4 ./vcheck $PROP $TIER > $S.out 2>$S.err; rc=$?
+[ $rc -ge 2 ] && { echo "vcheck stderr tail:"; tail -n 15 $S.err | cut -c1-500; }
 echo "vcheck $PROP $TIER on patched copy: exit=$rc violations=$(grep -c '^VIOLATION' $S.out)"
 grep '^VIOLATION' $S.out | head -${SEED_SHOW:-3} | cut -c1-330
-rm -rf $S $S.out
+rm -rf $S $S.out $S.err
